@@ -2,6 +2,7 @@ package main
 
 import (
 	"bytes"
+	"crypto"
 	"strings"
 	"time"
 
@@ -36,3 +37,18 @@ type armorErr string
 func (e armorErr) Error() string { return string(e) }
 
 const errNoArmor = armorErr("cannot parse armored signature")
+
+// foreignBinarySig returns the signature packet of a BINARY-mode detached signature by key k over
+// payload made with digest algorithm h, as another OpenPGP implementation (or an older perkeep)
+// could have produced it.
+func foreignBinarySig(k *keyInfo, payload string, t time.Time, h crypto.Hash) ([]byte, error) {
+	ent, err := jsonsign.EntityFromSecring(k.s.KeyID, k.ring)
+	if err != nil {
+		return nil, err
+	}
+	var buf bytes.Buffer
+	if err := openpgp.DetachSign(&buf, ent, strings.NewReader(payload), &packet.Config{DefaultHash: h, Time: func() time.Time { return t }}); err != nil {
+		return nil, err
+	}
+	return buf.Bytes(), nil
+}
